@@ -3,6 +3,7 @@ package checks
 import (
 	"fmt"
 	"strings"
+	"time"
 
 	"verif/der"
 	"verif/gen"
@@ -401,5 +402,84 @@ func tmplPolicy(s *gen.Spec) string {
 }
 
 func init() {
-	dirFams = append(dirFams, dirFam{name: "ext-shapes", n: extShapeSize, gen: extShapeCase})
+	dirFams = append(dirFams, dirFam{name: "ext-shapes", rank: 4, n: extShapeSize, gen: extShapeCase})
+}
+
+// ---- SCT-list family ----
+//
+// The embedded SCT list is a TLS-encoded blob inside two OCTET STRINGs; blind DER mutation cannot grow it. Lints
+// count SCTs / distinct logs against the certificate's lifetime, so the family is (number of SCTs 0..12) x (how many
+// distinct logs among them) x lifetime.
+
+var sctLifetimes = []int{30, 90, 180, 181, 398, 399, 456, 457, 825, 826, 1186, 1187}
+
+type sctShape struct{ n, logs int }
+
+var sctShapes = func() []sctShape {
+	var out []sctShape
+	for n := 0; n <= 12; n++ {
+		for _, l := range []int{n, 1, 2, n - 1} {
+			if l >= 0 && l <= n && (n == 0 || l >= 1) {
+				dup := false
+				for _, x := range out {
+					if x.n == n && x.logs == l {
+						dup = true
+					}
+				}
+				if !dup {
+					out = append(out, sctShape{n, l})
+				}
+			}
+		}
+	}
+	return out
+}()
+
+func sctListExt(n, logs int) *der.Node {
+	var list []byte
+	for i := 0; i < n; i++ {
+		sct := []byte{0} // v1
+		id := make([]byte, 32)
+		lg := i
+		if logs > 0 {
+			lg = i % logs
+		}
+		for b := range id {
+			id[b] = byte(lg*37 + b*11 + 1)
+		}
+		sct = append(sct, id...)
+		sct = append(sct, 0, 0, 1, 0x6b, byte(i), 0, 0, 0) // timestamp
+		sct = append(sct, 0, 0)                            // no extensions
+		sig := make([]byte, 70)
+		for b := range sig {
+			sig[b] = byte(b*7 + i)
+		}
+		sct = append(sct, 4, 3, 0, byte(len(sig)))
+		sct = append(sct, sig...)
+		list = append(list, byte(len(sct)>>8), byte(len(sct)))
+		list = append(list, sct...)
+	}
+	blob := append([]byte{byte(len(list) >> 8), byte(len(list))}, list...)
+	return der.MakeExt(gen.OIDExtSCT, false, der.Octets(blob))
+}
+
+func sctShapeSize(c *mon.Ctx) int { return len(sctShapes) * len(sctLifetimes) }
+
+func sctShapeCase(c *mon.Ctx, k int) (*mon.Obj, string) {
+	sh := sctShapes[k%len(sctShapes)]
+	days := sctLifetimes[k/len(sctShapes)%len(sctLifetimes)]
+	nb := gen.D(2019, 3, 1)
+	if days <= 398 {
+		nb = gen.D(2024, 3, 1)
+	}
+	s := gen.TLSLeaf(nb, "www.example.com")
+	s.NotAfter = nb.Add(time.Duration(days)*24*time.Hour - time.Second)
+	s.ReplaceExt(sctListExt(sh.n, sh.logs))
+	how := fmt.Sprintf("%d SCTs from %d logs, lifetime %d days", sh.n, sh.logs, days)
+	o, _ := mon.ParseObj(0, "gen/sct/"+how, s.DER())
+	return o, how
+}
+
+func init() {
+	dirFams = append(dirFams, dirFam{name: "sct-lists", rank: 6, n: sctShapeSize, gen: sctShapeCase})
 }
